@@ -184,7 +184,7 @@ H("c08_q_accept_matrix", "C08", "c08::accept_matrix", "every (target, element ty
 # ---------------------------------------------------------------------------- C09 (K-fmt)
 for t in INTS:
     wide = t not in ("u8", "i8", "u16", "i16")
-    fams = [(1, "q", "|v| < 100000"), (2, "t", "within 100000 of MIN/MAX")] + ([(0, "ta", "every value")] if t in ("u32", "i64") else []) if wide else [(0, "q", "every value")]
+    fams = [(1, "t" if t in ("usize", "isize") else "q", "|v| < 100000"), (2, "t", "within 100000 of MIN/MAX")] + ([(0, "ta", "every value")] if t in ("u32", "i64") else []) if wide else [(0, "q", "every value")]
     for fam, tier, fd in fams:
         H(f"c09_{tier}_dec_{t}_f{fam}", "C09", f"c09::dec_{t}::<{fam}, _>",
           f"{t} formatted as decimal response data: an independent <NR1> decoder returns the value ({fd})", f"{t}: {fd}",
@@ -194,7 +194,7 @@ for t in INTS:
         tier = "q" if (small or radix == 16) else "ta"
         if tier == "ta" and t not in ("u32", "u64"):
             continue
-        if tier == "q" and t in ("i32", "i64", "isize"):
+        if tier == "q" and t in ("i32", "i64", "isize", "usize"):
             tier = "t"   # the signed wide types repeat the unsigned ones' code path for non-negative values
         H(f"c09_{tier}_radix{radix}_{t}", "C09", f"c09::int_nondecimal::<{t}, {radix}, _>",
           f"{t} (non-negative) formatted as #{'H' if radix == 16 else 'Q' if radix == 8 else 'B'} response data: an independent "
@@ -235,7 +235,7 @@ for n in (0, 1, 3, 6):
 for l, tier in ((0, "q"), (1, "q"), (2, "t"), (3, "ta")):
     H(f"c09_{tier}_list_l{l}", "C09", f"c09::list::<{l}, _>", f"ArrayVec of {l} u16 values: comma-joined decimal elements in "
       f"order; empty list -> error", f"all u16 element values", cap_s=(1200 if tier == "q" else 2400), mem_gb=5, unwind=24)
-for ml, xl, tier in ((1, 0, "q"), (2, 0, "t"), (1, 1, "t"), (3, 0, "ta")):
+for ml, xl, tier in ((0, 0, "q"), (1, 0, "t"), (2, 0, "t"), (1, 1, "t"), (3, 0, "ta")):
     H(f"c09_{tier}_error_item_m{ml}_x{xl}", "C09", f"c09::error_item::<{ml}, {xl}, _>", f"error-queue item: custom error, "
       f"any number, {ml}-byte symbolic printable message" + (f", {xl}-byte symbolic extended text" if xl else "") +
       ": formatted as code,\"message[;extended]\": the code decodes to the number, the text is a well-formed quoted "
@@ -699,7 +699,8 @@ PROPS["C09"] = {
                         "32/64-bit types; #Q/#B for 8/16-bit); bool; NaN/infinity sentinels; ASCII strings of 0..2 bytes "
                         "through the independent decoder (0..1 bytes through the own parser); blocks of 0,1,5,9,10,12 bytes; "
                         "character data 1,3,6,12 bytes; expressions 0,1,3,6 bytes; lists of 0..1 u16; custom error items "
-                        "with a 1-byte message; enum variants (C20 family)",
+                        "with an empty message (any number; 1-3 byte messages in the thorough tier) and the plainness of "
+                        "all standard messages; enum variants (C20 family)",
                "thorough": "strings up to 4 bytes (5,6 attempted); lists of 2 (3 attempted); error items with 2-3 byte "
                            "messages and with extended text; #Q/#B and the full decimal range of 32/64-bit integers "
                            "attempted under a 1 h cap each"},
